@@ -61,7 +61,12 @@ fn dim(rng: &mut SplitMix64, allow0: bool) -> usize {
 pub fn rand_shape(rng: &mut SplitMix64, min_rank: usize, max_rank: usize, allow0: bool) -> Vec<usize> {
     loop {
         let rank = min_rank + rng.upto(max_rank - min_rank);
-        let s: Vec<usize> = (0..rank).map(|_| dim(rng, allow0)).collect();
+        let mut s: Vec<usize> = (0..rank).map(|_| dim(rng, allow0)).collect();
+        if allow0 && rank > 0 && rng.chance(1, 8) {
+            // a zero-sized dimension next to non-trivial ones (empty batch etc.)
+            let k = rng.below(rank as u64) as usize;
+            s[k] = 0;
+        }
         if numel(&s) <= 160 {
             return s;
         }
@@ -92,7 +97,12 @@ fn shrink(rng: &mut SplitMix64, out: &[usize]) -> Vec<usize> {
 
 /// Pair of shapes for a broadcasting binary operator.
 pub fn bpair(rng: &mut SplitMix64) -> (Vec<usize>, Vec<usize>) {
-    let out = rand_shape(rng, 0, 4, true);
+    let mut out = rand_shape(rng, 0, 4, true);
+    if out.len() >= 2 && rng.chance(1, 8) {
+        // a zero-sized dimension broadcast against 1, next to non-trivial dimensions
+        let k = rng.below(out.len() as u64) as usize;
+        out[k] = 0;
+    }
     match rng.below(10) {
         0 | 1 => (out.clone(), out),                       // equal
         2 | 3 | 4 => { let b = shrink(rng, &out); (out, b) }   // b broadcast to a
@@ -311,11 +321,21 @@ fn gen_inner(key: &str, rng: &mut SplitMix64) -> Option<Gen> {
             let axis = rng.below(s.len() as u64) as usize;
             let n = 1 + rng.upto(2);
             let dt = fi(rng);
+            let mut s = s;
+            if s.len() >= 2 && rng.chance(1, 4) {
+                // every input is empty because a NON-concat dimension is 0, while the extents
+                // along the concat axis are non-zero: the output must still grow along the axis
+                let k = (axis + 1 + rng.below(s.len() as u64 - 1) as usize) % s.len();
+                s[k] = 0;
+                if s[axis] == 0 {
+                    s[axis] = 1 + rng.upto(3);
+                }
+            }
             let mut inputs = vec![];
             for i in 0..n {
                 let mut si = s.clone();
                 if i > 0 {
-                    si[axis] = match rng.below(4) { 0 => 0, _ => dim(rng, true) };
+                    si[axis] = match rng.below(4) { 0 => 0, _ => 1 + rng.upto(4) };
                 }
                 inputs.push(it(t(rng, dt, &si)));
             }
@@ -451,9 +471,9 @@ fn gen_inner(key: &str, rng: &mut SplitMix64) -> Option<Gen> {
             (attrs, inputs, k)
         }
         "Pad" => {
-            let s = rand_shape(rng, 1, 3, false);
-            let dt = fi(rng);
             let mode = rng.pick(&["constant", "constant", "reflect", "edge"]);
+            let s = rand_shape(rng, 1, 3, mode == "constant");
+            let dt = fi(rng);
             let mut pads = vec![];
             for _ in 0..2 {
                 for &d in &s {
@@ -468,8 +488,11 @@ fn gen_inner(key: &str, rng: &mut SplitMix64) -> Option<Gen> {
             (vec![astr("mode", mode)], inputs, 1)
         }
         "Gather" => {
-            let s = rand_shape(rng, 1, 4, false);
+            let mut s = rand_shape(rng, 1, 4, false);
             let axis = rng.below(s.len() as u64) as usize;
+            if rng.chance(1, 4) {
+                s[axis] = 1;
+            }
             let is = rand_shape(rng, 0, 2, true);
             let d = s[axis] as i64;
             let idx = LT::rand(rng, Dt::I32, &is, -d, d - 1);
@@ -477,11 +500,26 @@ fn gen_inner(key: &str, rng: &mut SplitMix64) -> Option<Gen> {
             (vec![ai("axis", axis as i64)], vec![it(t(rng, dt, &s)), it(idx)], 1)
         }
         "GatherElements" => {
-            let s = rand_shape(rng, 1, 3, false);
-            let axis = rng.below(s.len() as u64) as usize;
+            let mut s = rand_shape(rng, 1, 4, false);
+            let mut axis = rng.below(s.len() as u64) as usize;
+            let unit_axis = rng.chance(1, 3);
+            if unit_axis {
+                // gather along a size-1 axis that is not the last one, with more indices than data
+                // along it (a view that is contiguous up to size-1 dims can give that axis stride 1)
+                if s.len() < 2 {
+                    s.push(2 + rng.upto(2));
+                }
+                axis = rng.below(s.len() as u64 - 1) as usize;
+                s[axis] = 1;
+                let last = s.len() - 1;
+                if s[last] == 1 {
+                    s[last] = 2 + rng.upto(2);
+                }
+            }
             let mut is = s.clone();
+            let same = unit_axis || rng.chance(1, 2);
             for (i, d) in is.iter_mut().enumerate() {
-                if i == axis { *d = 1 + rng.upto(3) } else { *d = 1 + rng.upto(*d - 1) }
+                if i == axis { *d = if unit_axis { 2 + rng.upto(2) } else { 1 + rng.upto(3) } } else if !same { *d = 1 + rng.upto(*d - 1) }
             }
             let d = s[axis] as i64;
             let idx = LT::rand(rng, Dt::I32, &is, -d, d - 1);
@@ -504,8 +542,11 @@ fn gen_inner(key: &str, rng: &mut SplitMix64) -> Option<Gen> {
             (none, vec![it(t(rng, dt, &s)), it(LT::new(Dt::I32, &is, vals))], 1)
         }
         "ScatterElements" | "Scatter" => {
-            let s = rand_shape(rng, 1, 3, false);
+            let mut s = rand_shape(rng, 1, 3, false);
             let axis = rng.below(s.len() as u64) as usize;
+            if rng.chance(1, 4) {
+                s[axis] = 1;
+            }
             let mut is = s.clone();
             for d in is.iter_mut() {
                 *d = 1 + rng.upto(*d - 1);
@@ -514,6 +555,9 @@ fn gen_inner(key: &str, rng: &mut SplitMix64) -> Option<Gen> {
             // unique indices along the axis are not required when a reduction is given; without a
             // reduction duplicates make the result order-dependent, so use a permutation prefix
             let red = if key == "Scatter" { "none" } else { rng.pick(&["none", "add", "mul", "min", "max"]) };
+            if red != "none" && rng.chance(1, 2) {
+                is[axis] = s[axis] + rng.upto(2);
+            }
             let idx = if red == "none" {
                 let st = contiguous_strides(&is);
                 let n = numel(&is);
